@@ -16,10 +16,22 @@ Definition is_cfamily (l : language) : bool := match l with LC | LCpp | LCSharp 
 Definition clause_tok (t : token) : bool :=
   plain t && negb (pystr_eqb (t_value t) semicolon) && negb (pystr_eqb (t_value t) lbrace).
 
-(* a token of a TypeScript return type as the grammar writes it: a clause token whose text is no parenthesis either
-   (function types with parenthesis groups are recognised by the tool but are not part of this grammar) *)
+(* a token of a TypeScript return type outside parenthesis groups: a clause token whose text is no parenthesis either *)
 Definition type_tok (t : token) : bool :=
   clause_tok t && negb (pystr_eqb (t_value t) lparen) && negb (pystr_eqb (t_value t) rparen).
+(* a TypeScript return type as the grammar writes it: type tokens and balanced parenthesis groups (function types
+   `(x: number) => void`, parenthesised unions); inside a group anything without braces goes *)
+(* what may follow a type token: a name is not directly applied to a parenthesis group (`Foo ( x ) {` would be a
+   header shape of its own), and the type does not end with "=>" (`x = ( a ) => {` would be an arrow shape) *)
+Definition type_next_ok (t : token) (r : list token) : bool :=
+  match r with
+  | [] => negb (is_symbol t s_arrow)
+  | p :: _ => negb (is_name t && is_lparen p)
+  end.
+Inductive type_seq : list token -> Prop :=
+| tsq_nil : type_seq []
+| tsq_tok t r : type_tok t = true -> type_next_ok t r = true -> type_seq r -> type_seq (t :: r)
+| tsq_group o g c r : is_lparen o = true -> inner g -> is_rparen c = true -> type_seq r -> type_seq (o :: g ++ c :: r).
 (* the `throws` keyword does not occur inside a condition *)
 Definition no_throws_kw (ts : list token) : Prop := Forall (fun t => kw_is t s_throws = false) ts.
 
@@ -49,11 +61,11 @@ Inductive fhead (l : language) : list token -> nat -> nat -> Prop :=
     is_jsts l = true -> kw_is fk s_function = true -> is_name nm = true -> groups gs ->
     fhead l (fk :: nm :: gs) 1 (2 + length gs)
 | fh_method_ret nm gs colon ty :
-    l = LTypeScript -> is_name nm = true -> groups gs -> is_operator colon s_colon = true -> forallb type_tok ty = true ->
+    l = LTypeScript -> is_name nm = true -> groups gs -> is_operator colon s_colon = true -> type_seq ty ->
     fhead l (nm :: gs ++ colon :: ty) 0 (1 + length gs)
 | fh_function_ret fk nm gs colon ty :
     l = LTypeScript -> kw_is fk s_function = true -> is_name nm = true -> groups gs ->
-    is_operator colon s_colon = true -> forallb type_tok ty = true ->
+    is_operator colon s_colon = true -> type_seq ty ->
     fhead l (fk :: nm :: gs ++ colon :: ty) 1 (2 + length gs)
 | fh_arrow nm eq gs arrow :
     is_jsts l = true -> is_name nm = true -> is_operator eq s_eq = true -> groups gs -> is_symbol arrow s_arrow = true ->
